@@ -18,6 +18,17 @@ CLAIMS = {
   note="A1 MIR faithful; A2 reviewed std/crc summaries; A3 64-bit, <2^56 counter updates (rule U for the usize byte counters); "
        "A4 caller-supplied iterators/readers return; A6 sealing; A7 derived impls. One reviewed panic (ArrayBuf::from_iter) outside the entry points.",
   ref="DESIGN.md §4 C05, §2.3-2.4"),
+ "C06": dict(
+  technique="abstract interpretation of MIR with function summaries and lifted preconditions; allocation-size and call-graph rules",
+  text="Both parsers are analysed from complete::parse, Parser::new and Parser::next over an arbitrary input slice. Every parser function "
+       "is summarised once per instance with symbolic arguments; obligations needing the caller's context are lifted and re-proved at each "
+       "call site. All panic edges (overflow, bounds, unwrap, slice preconditions) must be discharged; every allocation request must be "
+       "bounded by the length of an input slice argument (never a declared length); Vec::push only inside loops whose input provably "
+       "shrinks; loops need termination certificates; the streaming parser's reachable call set must not touch alloc (thorough: the "
+       "--no-default-features build contains the streaming parser and no allocating parser). Decides totality and input-proportional "
+       "allocation requests for all byte strings; allocator success is assumed.",
+  note="A1, A2, A3 (slices <= isize::MAX), A5 allocator, A7 derived impls; streaming-parser object invariant inferred per countdown class",
+  ref="DESIGN.md §4 C06"),
 }
 
 NA = {
